@@ -221,3 +221,63 @@ def split_bc(text):
     if len(out) != int(hdr[3]):
         raise ValueError("bytecode text: %d instructions announced, %d parsed" % (int(hdr[3]), len(out)))
     return hdr, out
+
+
+def translate_mov(ins, w, length):
+    """the pointer-move template -> X86Mov.v syntax; `length`: size of the chunk in bytes (the jb
+    must jump to its end)"""
+    out = []
+    for text in ins:
+        text = text.strip()
+        m = re.match(r"^(\w+)\s*(.*)$", text)
+        mn, ops = m.group(1), [o.strip() for o in m.group(2).split(",") if o.strip()]
+        if mn in ("inc", "dec") and ops == ["rbp"]:
+            out.append("addrbp %d" % (1 if mn == "inc" else -1))
+        elif mn in ("add", "sub") and len(ops) == 2 and ops[0] == "rbp" and re.match(r"^-?(0x[0-9a-f]+|\d+)$", ops[1]):
+            v = num(ops[1])
+            if v >= 1 << 63:
+                v -= 1 << 64
+            out.append("addrbp %d" % (v if mn == "add" else -v))
+        elif mn in ("add", "sub") and len(ops) == 2 and ops[0] == "rsp" and num(ops[1]) == 8:
+            out.append("subrsp" if mn == "sub" else "addrsp")
+        elif mn == "lea" and len(ops) == 2 and ops[0] == "rax":
+            mm = re.match(r"^\[rbp(?:([+-])(0x[0-9a-f]+))?\]$", ops[1])
+            if not mm:
+                raise Unsupported(text)
+            d = num(mm.group(2)) if mm.group(2) else 0
+            out.append("learax %d" % (-d if mm.group(1) == "-" else d))
+        elif mn == "lea" and len(ops) == 2 and ops[0] == "rbp":
+            mm = re.match(r"^\[rbp\+rax\*(\d)(?:([+-])(0x[0-9a-f]+))?\]$", ops[1])
+            if not mm:
+                raise Unsupported(text)
+            d = num(mm.group(3)) if mm.group(3) else 0
+            out.append("learbp %s %d" % (mm.group(1), -d if mm.group(2) == "-" else d))
+        elif mn == "sub" and ops == ["rax", "QWORD PTR [rbx]"]:
+            out.append("subbase")
+        elif mn == "sar" and len(ops) == 2 and ops[0] == "rax":
+            out.append("sar %d" % num(ops[1]))
+        elif mn == "sar" and ops == ["rax"]:
+            out.append("sar 1")
+        elif mn == "cmp" and ops == ["rax", "QWORD PTR [rbx+0x8]"]:
+            out.append("cmpsize")
+        elif mn == "jb" and len(ops) == 1:
+            if num(ops[0]) != length:
+                raise Unsupported("jb to %s, the template ends at %s" % (ops[0], hex(length)))
+            out.append("jb")
+        elif mn == "mov" and ops == ["QWORD PTR [rbx+0x10]", "rax"]:
+            out.append("storeoff")
+        elif mn == "mov" and ops == ["rbp", "QWORD PTR [rbx]"]:
+            out.append("loadbase")
+        elif mn == "mov" and ops == ["rax", "QWORD PTR [rbx+0x10]"]:
+            out.append("loadoff")
+        elif mn in ("push", "pop") and len(ops) == 1 and ops[0] in REG and REG[ops[0]][1] == 64:
+            out.append("%s %d" % (mn, REG[ops[0]][0]))
+        elif mn == "call" and ops == ["rax"]:
+            out.append("call 0")
+        elif mn in ("mov", "movabs") and len(ops) == 2 and ops[0] in REG and ops[1] in REG and REG[ops[0]][1] == 64 and REG[ops[1]][1] == 64:
+            out.append("movrr %d %d" % (REG[ops[0]][0], REG[ops[1]][0]))
+        elif mn in ("mov", "movabs") and len(ops) == 2 and ops[0] in REG and REG[ops[0]][1] in (32, 64) and re.match(r"^(0x[0-9a-f]+|\d+)$", ops[1]):
+            out.append("movi %d %d" % (REG[ops[0]][0], num(ops[1])))     # a 32-bit destination zero-extends: same value
+        else:
+            raise Unsupported(text)
+    return ";".join(out)
